@@ -253,6 +253,14 @@ def _impl(tier, seed, search):
                     if ok: L.close(f'SO3.rpy(multi,{o},{un})', x[0], x[1], 1e-12, 180.0, dict(unit=un, order=o), what='rpy() on a multi-valued object differs from the single-valued calls', sig=f'multi:SO3.rpy:{o}')
                 ok, x = L.noraise(f'SO3.eul(multi,{un})', lambda: (rows(X2.eul(unit=un)), np.stack([SO3(Ra_, check=False).eul(unit=un), SO3(Rb_, check=False).eul(unit=un)])), dict(unit=un), 'SO3.eul() on a 2-valued object')
                 if ok: L.close(f'SO3.eul(multi,{un})', x[0], x[1], 1e-12, 180.0, dict(unit=un), sig='multi:SO3.eul')
+    # round 11: UnitQuaternion.AngVec(θ, v) for |θ| beyond a half turn is the rotation by θ about v (Rodrigues written out here), as SO3.AngVec / angvec2r
+    for th_, un_ in ((4.0, 'rad'), (200.0, 'deg'), (-270.0, 'deg'), (math.pi + 1e-3, 'rad'), (7.0, 'rad'), (-5.5, 'rad'), (2.0, 'rad'), (-3.0, 'rad')):
+        v_ = np.array([1.0, 2.0, 3.0]); u_ = v_ / np.linalg.norm(v_); a_ = th_ if un_ == 'rad' else th_ * math.pi / 180
+        K_ = np.array([[0, -u_[2], u_[1]], [u_[2], 0, -u_[0]], [-u_[1], u_[0], 0]]); ref_ = np.eye(3) + math.sin(a_) * K_ + (1 - math.cos(a_)) * (K_ @ K_)
+        inp_ = dict(theta=th_, unit=un_, v=v_)
+        for nm_, f_ in (('UnitQuaternion.AngVec', lambda: UnitQuaternion.AngVec(th_, v_, unit=un_).R), ('SO3.AngVec', lambda: SO3.AngVec(th_, v_, unit=un_).A), ('angvec2r', lambda: b.angvec2r(th_, v_, unit=un_))):
+            ok, r = L.noraise(f'{nm_}(beyond half turn)', f_, inp_, f'{nm_}(theta, v)', sig=f'angvec-beyond-pi:{nm_}:raises')
+            if ok: L.close(f'{nm_}(beyond half turn)', np.asarray(r, float), ref_, 1e-12, 1.0, inp_, what=f'{nm_}(θ, v) is not the rotation by θ about v', sig=f'angvec-beyond-pi:{nm_}')
     return L.result()
 
 if __name__ == '__main__':
